@@ -453,6 +453,7 @@ pub fn e1_scan_leg(ctx: &mut Ctx) -> bool {
             Ok(Some(extra)) if extra.is_empty() => {
                 ctx.class("scan:only_absolute_references");
                 ctx.nontrivial(&(&inv.macro_name, &inv.attr, &inv.item));
+                ctx.sample(|| json!({"scan": format!("#[{}({})] {}", inv.macro_name, inv.attr, super::c20::truncate(&inv.item, 160))}));
                 Ok(())
             }
             Ok(Some(extra)) => Err(crate::drive::Fail::new(
